@@ -2,6 +2,9 @@ import ScVerif.C09.Codec
 import ScVerif.C09.SendTimeout
 import ScVerif.C09.MapQueue
 import ScVerif.C09.Subs
+import ScVerif.C09.Include
+import ScVerif.C09.Seed
+import ScVerif.C09.Mixed
 /-! Driver handler for C09.
 
 * `merge <a> <b>`                 → `mergeChanges a b` (`drop` when `send == false`)
@@ -15,17 +18,25 @@ import ScVerif.C09.Subs
                                   subscribing (seed in hand; `-` = no seed), forwarder scheduled greedily (one `take`
                                   attempt after every move): moves `w:<tok>` (a write reaches the DropExcess slot) /
                                   `d` (the consumer receives); equivalences `never|eq|class|near`, mask `0|1`
-                                  (`1`: tokens `sn` are filtered to `s0`) → per move `<takes>` / `<value|none>,<takes>`
+                                  (`1`: tokens `sn[@t]` are filtered to `s0[@t]`) → per move `<takes>` / `<value|none>,<takes>`
                                   (cumulative number of takes = calls of the equivalence), then `|` and the values
                                   a consumer draining to quiescence receives
 * `crun <kind,…> <seeds> <move>*` several subscribers on one bus (`sysStep`), each subscribed with the seed changes
-                                  `<seeds>` (`;`-separated, `-` = none) and scheduled greedily: kinds `pull` / `pull!` (updates only: no seeds) /
-                                  `id:<i>` (PullID); moves `s:<change>` (Bus.Send) / `d<k>` (consumer k receives)
+                                  `<seeds>` (`;`-separated, `-` = none: one ADD per stored item; each subscriber keeps the ones its
+                                  filter admits) and scheduled greedily: kinds `pull` / `pull!` (updates only: no seeds) /
+                                  `id:<i>` (PullID), each optionally `~<include>` (`WithInclude`: `all|odd|even|ida`; the forwarder
+                                  transform is `includeChange f`, Include.lean); moves `s:<change>` (Bus.Send) / `d<k>` (consumer k receives)
                                   → per move `[<out>@]<seen0>/<seen1>/…`, then per subscriber `|` and its drain
 * `brun <seed> <move>*`           one backpressured subscriber (`bstep`) and ONE writer: moves `w` (the writer starts its
                                   next write `t<n>` unless one is still waiting) / `d` (the consumer receives; a waiting
                                   write then goes through) → per move `ok:t` | `wait:t` | `still:t` / `<value|none>[+t]`,
                                   then `|` and what a consumer draining to quiescence receives
+* `xrun <L|B,…> <seed> <move>*`   lossy (`L`) and backpressured (`B`) subscribers MIXED on one bus in registration order
+                                  (`xstep`, Mixed.lean) and ONE writer; `Bus.Send` advances greedily listener by listener, lossy
+                                  forwarders take greedily: moves `w` (the writer starts its next write `t<n>` unless one is still
+                                  waiting) / `d<k>` (consumer k receives once) → per move `ok:t` | `wait:t` | `still:t` /
+                                  `<value|none>[+t]` (`+t`: the waiting write completed as a result), each followed by
+                                  `@<looks0>/<looks1>/…` (how many events each forwarder has taken so far: used for waiting only)
 * `set <deadline> <listener>*`    `Value.set` after its commit: `Bus.Send` as above, then the error mapping
                                   (`setReturnsError`) → `error@<t>` or `ok@<t>`
 -/
@@ -64,13 +75,21 @@ def showSendResult : SendResult → String
   | .ok t => "ok@" ++ toString t
   | .deadlineExceeded t => "deadline@" ++ toString t
 
-/-! #### Value pipeline (tokens are two-character strings `sn`) -/
+/-! #### Value pipeline (tokens are two-character values `sn`, optionally followed by `@<t>`: the change
+time the write was stamped with — not monotonic in write order: `WithWriteTime`, a clock stepped back; nothing in
+the modelled code looks at it, it travels with the value) -/
 
 def tokHead (s : String) : Nat := (s.toList.headD '0').toNat
 
+/-- the value part of a token -/
+def tokVal (s : String) : List Char := s.toList.take 2
+
+def validTok (t : String) : Bool :=
+  t.length == 2 || (t.length > 3 && (t.toList.drop 2).head? == some '@')
+
 def namedEquiv? : String → Option (Option String → String → Bool)
   | "never" => some (fun _ _ => false)
-  | "eq" => some (fun l v => l == some v)
+  | "eq" => some (fun l v => match l with | some a => tokVal a == tokVal v | none => false)
   | "class" => some (fun l v => match l with | some a => tokHead a == tokHead v | none => false)
   | "near" => some (fun l v => match l with
       | some a => (tokHead a ≤ tokHead v + 1) && (tokHead v ≤ tokHead a + 1) | none => false)
@@ -78,7 +97,7 @@ def namedEquiv? : String → Option (Option String → String → Bool)
 
 def namedFilter? : String → Option (String → String)
   | "0" => some id
-  | "1" => some (fun s => String.ofList [s.toList.headD '0', '0'])
+  | "1" => some (fun s => match s.toList with | a :: _ :: rest => String.ofList (a :: '0' :: rest) | _ => s)
   | _ => none
 
 inductive VM where | w (t : String) | d
@@ -86,7 +105,7 @@ inductive VM where | w (t : String) | d
 def parseVM? (s : String) : Option VM :=
   if s = "d" then some .d
   else match s.splitOn ":" with
-    | ["w", t] => if t.length = 2 then some (.w t) else none
+    | ["w", t] => if validTok t then some (.w t) else none
     | _ => none
 
 /-- one `take` attempt; the counter counts the takes that happened -/
@@ -116,12 +135,32 @@ def vdrain (E : Option String → String → Bool) (F : String → String) : Nat
 
 abbrev SSub := Sub String String
 
-def parseKindSub? (sd : List SChange) (s : String) : Option SSub :=
-  if s = "pull" then some (Sub.init none sd)
-  else if s = "pull!" then some (Sub.init none [])          -- WithUpdatesOnly: no seeds
-  else match s.splitOn ":" with
-    | ["id", i] => if i = "" then none else some (Sub.init (some i) sd)
-    | ["id!", i] => if i = "" then none else some (Sub.init (some i) [])
+/-- the closed family of `WithInclude` functions shared with the harness (values are tokens ending in a digit) -/
+def tokLastDigit (s : String) : Nat := (s.toList.getLast?.getD '0').toNat - '0'.toNat
+
+def namedInclude? : String → Option (String → String → Bool)
+  | "all" => some (fun _ _ => true)
+  | "odd" => some (fun _ v => tokLastDigit v % 2 == 1)
+  | "even" => some (fun _ v => tokLastDigit v % 2 == 0)
+  | "ida" => some (fun i _ => i == "a")
+  | _ => none
+
+/-- the seed changes of a subscription: `sd` lists one ADD per stored item, sorted by id; the model's
+`seedChanges` (Seed.lean; `C09_seed_list`) keeps the admitted ones and flags the last of THOSE -/
+def seedsFor (f : String → String → Bool) (sd : List SChange) : List SChange :=
+  seedChanges f (sd.filterMap (fun c => c.new.map (fun v => (c.id, v, c.time))))
+
+def parseKindSub? (sd : List SChange) (s : String) : Option SSub := do
+  let (k, f) ← ((match s.splitOn "~" with
+    | [k] => some (k, fun _ _ => true)
+    | [k, n] => (namedInclude? n).map (fun f => (k, f))
+    | _ => none) : Option (String × (String → String → Bool)))
+  let T := includeChange f
+  if k = "pull" then some (Sub.init none T (seedsFor f sd))
+  else if k = "pull!" then some (Sub.init none T [])          -- WithUpdatesOnly: no seeds
+  else match k.splitOn ":" with
+    | ["id", i] => if i = "" then none else some (Sub.init (some i) T (seedsFor f sd))
+    | ["id!", i] => if i = "" then none else some (Sub.init (some i) T [])
     | _ => none
 
 inductive CM where | s (e : SChange) | d (k : Nat)
@@ -213,8 +252,66 @@ def bdrain : Nat → BDrv → List String
       | none => v :: bdrain n { st with c := c' }
     | none => []
 
+/-! #### lossy and backpressured subscribers mixed on one bus, one writer -/
+
+def xNever : Option String → String → Bool := fun _ _ => false
+
+structure XDrv where
+  c : MixCfg String
+  next : Nat
+
+/-- `Bus.Send` goes on as far as it can, then every lossy forwarder takes what it can -/
+def xsettle (c : MixCfg String) : MixCfg String :=
+  let c := (List.range (c.subs.length + 1)).foldl (fun c _ => xstep xNever id c .advance) c
+  (List.range c.subs.length).foldl (fun c k => xstep xNever id c (.loc k .take)) c
+
+def xlooks (seedN : Nat) (c : MixCfg String) : String :=
+  "/".intercalate (c.subs.map (fun s => toString (match s with
+    | .lossy v => v.delivered.length + v.inHand.toList.length - seedN
+    | .bp b => b.accepted.length - seedN)))
+
+def xoffer (c : MixCfg String) (k : Nat) : String :=
+  match c.subs[k]? with
+  | some (.lossy v) => v.inHand.getD "none"
+  | some (.bp b) => b.inHand.getD "none"
+  | none => "none"
+
+def xpending (c : MixCfg String) : Option String := c.sending.map (·.1)
+
+def xrunDrv (seedN : Nat) : XDrv → List String → List String → Option (List String)
+  | _, [], acc => some acc.reverse
+  | st, "w" :: ms, acc =>
+    match xpending st.c with
+    | some t => xrunDrv seedN st ms (("still:" ++ t ++ "@" ++ xlooks seedN st.c) :: acc)
+    | none =>
+      let t := "t" ++ toString st.next
+      let c' := xsettle (xstep xNever id st.c (.write t))
+      let o := (if (xpending c').isNone then "ok:" else "wait:") ++ t
+      xrunDrv seedN ⟨c', st.next + 1⟩ ms ((o ++ "@" ++ xlooks seedN c') :: acc)
+  | st, m :: ms, acc =>
+    match m.toList with
+    | 'd' :: ds => do
+      let k ← parseNat? (String.ofList ds)
+      let o := xoffer st.c k
+      let c' := xsettle (xstep xNever id st.c (.loc k .deliver))
+      let o := match xpending st.c, xpending c' with
+        | some t, none => o ++ "+" ++ t
+        | _, _ => o
+      xrunDrv seedN ⟨c', st.next⟩ ms ((o ++ "@" ++ xlooks seedN c') :: acc)
+    | _ => none
+
+def parseXSub? (seed : Option String) : String → Option (MSub String)
+  | "L" => some (.lossy (VCfg.subscribed id seed))
+  | "B" => some (.bp (match seed with | some s => ⟨some s, [], [s]⟩ | none => BCfg.init))
+  | _ => none
+
 def handle? (toks : List String) : Option String :=
   match toks with
+  | "xrun" :: kinds :: seed :: ms => do
+    let sd : Option String := if seed = "-" then none else some seed
+    let subs ← (kinds.splitOn ",").mapM (parseXSub? sd)
+    let r ← xrunDrv (if sd.isSome then 1 else 0) ⟨⟨subs, none, []⟩, 1⟩ ms []
+    pure (" ".intercalate r)
   | "brun" :: seed :: ms => do
     let c0 : BCfg String := if seed = "-" then BCfg.init else ⟨some seed, [], [seed]⟩
     let r ← brunDrv ⟨c0, none, 1⟩ ms []
@@ -222,7 +319,7 @@ def handle? (toks : List String) : Option String :=
   | "vrun" :: eq :: mask :: seed :: ms => do
     let E ← namedEquiv? eq
     let F ← namedFilter? mask
-    let cur ← (if seed = "-" then some none else if seed.length = 2 then some (some seed) else none)
+    let cur ← (if seed = "-" then some none else if validTok seed then some (some seed) else none)
     let ms ← ms.mapM parseVM?
     let r := vrunDrv E F (VCfg.subscribed F cur, 0) ms []
     pure (showOuts r.1 ++ "|" ++ showOuts (vdrain E F 8 r.2.1))
